@@ -11,6 +11,9 @@
 //!          | "attr" v a | "keys" v | "call" v | "req" | "ssuper" v | "sself" v m | "self" m
 //!          | "for" v k strs.. nitems items.. | "inmac" m arg str nitems items.. | "ae" mode nitems items..
 //!          | "bad" kind | "macv" m w
+//!          | "ia" ign arg | "impa" arg v | "froma" arg name alias      (include / import / from-import of a *value*)
+//! arg     := kind k cand..    kind: str sc lit tup ctx slice rev lazy once rep map ctxmap pobj plain
+//! cand    := t (the string naming template t) | "!i" (42) | "!n" (none) | "!u" (undefined) | "!b" (true)
 //! fam     := name [ "~" L S P U B ]   (configuration, see `Cfgv`)
 //!
 //! Result: `ok:<output>` | `err:<kind chain>` | `panic` | `hang` | `crash:<status>` | `syntax:<kind>`
@@ -27,6 +30,58 @@ use minijinja::{Environment, Error, Value};
 use mjh::*;
 use std::collections::BTreeMap;
 use std::io::{BufRead, Write};
+
+/// one candidate an include argument yields: a template name or a value that is not a string
+#[derive(Clone, Copy, Debug, PartialEq)]
+enum Cand {
+    T(usize),
+    Int,
+    NoneV,
+    Undef,
+    Bool,
+}
+
+/// the value of the expression behind include / import / from-import.  `kind` says how the
+/// value is produced (and so which kind of `Value` reaches `perform_include`):
+/// `str` a string literal, `sc` a non-string scalar, `lit` a list literal, `tup` a tuple, `ctx` a
+/// `Vec` from the environment, `slice` a sliced list (`g[1:]`, lazily evaluated), `rev` a list
+/// through `|reverse` (lazy), `lazy` `Value::make_iterable`, `once` a one-shot iterator, `rep`
+/// list repetition (`g * 2`, lazy; yields the candidates twice), `map` a map literal / `ctxmap` a
+/// `BTreeMap` from the environment (candidates = keys in iteration order, i.e. sorted), `pobj`
+/// a custom object with `ObjectRepr::Plain` that enumerates, `plain` an object that cannot be
+/// iterated (the function `range`)
+#[derive(Clone, Debug, PartialEq)]
+struct Arg {
+    kind: String,
+    cands: Vec<Cand>,
+}
+
+impl Arg {
+    fn new(kind: &str, cands: Vec<Cand>) -> Arg {
+        Arg { kind: kind.into(), cands }
+    }
+    fn names(kind: &str, names: &[usize]) -> Arg {
+        Arg { kind: kind.into(), cands: names.iter().map(|n| Cand::T(*n)).collect() }
+    }
+    /// the name of the environment global that holds the value (kinds that need one)
+    fn global(&self) -> String {
+        let mut g = format!("g{}", self.kind);
+        for c in &self.cands {
+            g.push('_');
+            match c {
+                Cand::T(t) => g.push_str(&t.to_string()),
+                Cand::Int => g.push('I'),
+                Cand::NoneV => g.push('N'),
+                Cand::Undef => g.push('U'),
+                Cand::Bool => g.push('B'),
+            }
+        }
+        g
+    }
+    fn needs_global(&self) -> bool {
+        matches!(self.kind.as_str(), "ctx" | "slice" | "lazy" | "once" | "rep" | "ctxmap" | "pobj")
+    }
+}
 
 #[derive(Clone, Debug)]
 enum Item {
@@ -55,6 +110,12 @@ enum Item {
     AutoEsc(String, Vec<Item>),
     /// `extends` / `include` with a name that is not a string (kinds 0..3)
     BadTarget(usize),
+    /// `{% include <arg> %}`
+    InclArg { arg: Arg, ign: bool },
+    /// `{% import <arg> as v %}`
+    ImportArg(Arg, usize),
+    /// `{% from <arg> import name as alias %}`
+    FromArg(Arg, usize, usize),
 }
 use Item::*;
 
@@ -191,6 +252,36 @@ fn ser_item(it: &Item, out: &mut Vec<String>) {
             out.push("bad".into());
             out.push(k.to_string());
         }
+        InclArg { arg, ign } => {
+            out.push("ia".into());
+            out.push((*ign as u8).to_string());
+            ser_arg(arg, out);
+        }
+        ImportArg(arg, v) => {
+            out.push("impa".into());
+            ser_arg(arg, out);
+            out.push(v.to_string());
+        }
+        FromArg(arg, n, a) => {
+            out.push("froma".into());
+            ser_arg(arg, out);
+            out.push(n.to_string());
+            out.push(a.to_string());
+        }
+    }
+}
+
+fn ser_arg(a: &Arg, out: &mut Vec<String>) {
+    out.push(a.kind.clone());
+    out.push(a.cands.len().to_string());
+    for c in &a.cands {
+        out.push(match c {
+            Cand::T(t) => t.to_string(),
+            Cand::Int => "!i".into(),
+            Cand::NoneV => "!n".into(),
+            Cand::Undef => "!u".into(),
+            Cand::Bool => "!b".into(),
+        });
     }
 }
 
@@ -264,8 +355,35 @@ impl<'a> Toks<'a> {
             "inmac" => InMacro(self.num()?, self.num()?, self.next()?.to_string(), self.items()?),
             "ae" => AutoEsc(self.next()?.to_string(), self.items()?),
             "bad" => BadTarget(self.num()?),
+            "ia" => {
+                let ign = self.num()? == 1;
+                InclArg { arg: self.arg()?, ign }
+            }
+            "impa" => {
+                let arg = self.arg()?;
+                ImportArg(arg, self.num()?)
+            }
+            "froma" => {
+                let arg = self.arg()?;
+                FromArg(arg, self.num()?, self.num()?)
+            }
             other => return Err(format!("bad item tag {other}")),
         })
+    }
+    fn arg(&mut self) -> Result<Arg, String> {
+        let kind = self.next()?.to_string();
+        let k = self.num()?;
+        let mut cands = vec![];
+        for _ in 0..k {
+            cands.push(match self.next()? {
+                "!i" => Cand::Int,
+                "!n" => Cand::NoneV,
+                "!u" => Cand::Undef,
+                "!b" => Cand::Bool,
+                t => Cand::T(t.parse().map_err(|_| "candidate expected".to_string())?),
+            });
+        }
+        Ok(Arg { kind, cands })
     }
 }
 
@@ -377,9 +495,54 @@ fn ctx_marker(k: usize) -> &'static str {
     }
 }
 
+/// a candidate as an expression of the template language
+fn cand_expr(pr: &Pr, c: &Cand) -> String {
+    match c {
+        Cand::T(t) => format!("\"{}\"", pr.rf(*t)),
+        Cand::Int => "42".into(),
+        Cand::NoneV => "none".into(),
+        Cand::Undef => "nope9".into(),
+        Cand::Bool => "true".into(),
+    }
+}
+
+/// the expression that evaluates to the argument value
+fn arg_expr(pr: &Pr, a: &Arg) -> String {
+    let exprs: Vec<String> = a.cands.iter().map(|c| cand_expr(pr, c)).collect();
+    match a.kind.as_str() {
+        "str" | "sc" => exprs[0].clone(),
+        "lit" => format!("[{}]", exprs.join(", ")),
+        "tup" => match exprs.len() {
+            1 => format!("({},)", exprs[0]),
+            _ => format!("({})", exprs.join(", ")),
+        },
+        "rev" => {
+            let mut r = exprs.clone();
+            r.reverse();
+            format!("[{}]|reverse", r.join(", "))
+        }
+        "map" => {
+            // written in the reverse of the iteration order: the order comes from the map
+            let mut r: Vec<String> = exprs.iter().enumerate().map(|(i, e)| format!("{e}: {i}")).collect();
+            r.reverse();
+            format!("{{{}}}", r.join(", "))
+        }
+        "slice" => format!("{}[1:]", a.global()),
+        "rep" => format!("{} * 2", a.global()),
+        "plain" => "range".into(),
+        _ => a.global(),
+    }
+}
+
 fn print_items(pr: &Pr, t: &Tmpl, items: &[Item], used: &mut Vec<usize>, out: &mut String) {
     for it in items {
         match it {
+            InclArg { arg, ign } => {
+                let ig = if *ign { " ignore missing" } else { "" };
+                out.push_str(&pr.blk(&format!("include {}{ig}", arg_expr(pr, arg))));
+            }
+            ImportArg(arg, v) => out.push_str(&pr.blk(&format!("import {} as v{v}", arg_expr(pr, arg)))),
+            FromArg(arg, n, a) => out.push_str(&pr.blk(&format!("from {} import v{n} as v{a}", arg_expr(pr, arg)))),
             Text(s) => out.push_str(s),
             CallBlock(n) => {
                 used.push(*n);
@@ -575,8 +738,104 @@ fn join_path<'a>(name: &'a str, parent: &str) -> std::borrow::Cow<'a, str> {
     std::borrow::Cow::Owned(rv.join("/"))
 }
 
-fn make_env(cfg: Cfgv, sources: &[(String, String, Option<char>)], dyn_names: &[String]) -> Result<Environment<'static>, Error> {
+/// a custom object with `ObjectRepr::Plain` that can be enumerated
+#[derive(Debug)]
+struct PlainSeq(Vec<Value>);
+
+impl minijinja::value::Object for PlainSeq {
+    fn repr(self: &std::sync::Arc<Self>) -> minijinja::value::ObjectRepr {
+        minijinja::value::ObjectRepr::Plain
+    }
+    fn get_value(self: &std::sync::Arc<Self>, key: &Value) -> Option<Value> {
+        self.0.get(key.as_usize()?).cloned()
+    }
+    fn enumerate(self: &std::sync::Arc<Self>) -> minijinja::value::Enumerator {
+        minijinja::value::Enumerator::Seq(self.0.len())
+    }
+}
+
+fn cand_value(pr: &Pr, c: &Cand) -> Value {
+    match c {
+        Cand::T(t) => Value::from(pr.rf(*t)),
+        Cand::Int => Value::from(42),
+        Cand::NoneV => Value::from(()),
+        Cand::Undef => Value::UNDEFINED,
+        Cand::Bool => Value::from(true),
+    }
+}
+
+/// the Rust-side value behind an argument that lives in the environment
+fn arg_value(pr: &Pr, a: &Arg) -> Value {
+    let vals: Vec<Value> = a.cands.iter().map(|c| cand_value(pr, c)).collect();
+    match a.kind.as_str() {
+        "slice" => {
+            let mut v = vec![Value::from("pad-missing.txt")];
+            v.extend(vals);
+            Value::from(v)
+        }
+        "lazy" => Value::make_iterable(move || vals.clone().into_iter()),
+        "once" => Value::make_one_shot_iterator(vals.into_iter()),
+        "ctxmap" => {
+            let m: BTreeMap<String, Value> =
+                vals.iter().enumerate().map(|(i, v)| (v.as_str().unwrap_or("?").to_string(), Value::from(i))).collect();
+            Value::from(m)
+        }
+        "pobj" => Value::from_object(PlainSeq(vals)),
+        _ => Value::from(vals),
+    }
+}
+
+fn collect_args(items: &[Item], out: &mut Vec<Arg>) {
+    for it in items {
+        match it {
+            InclArg { arg, .. } | ImportArg(arg, _) | FromArg(arg, _, _) => {
+                if !out.contains(arg) {
+                    out.push(arg.clone());
+                }
+            }
+            Loop(_, _, b) | InMacro(_, _, _, b) | AutoEsc(_, b) => collect_args(b, out),
+            _ => {}
+        }
+    }
+}
+
+fn case_args(c: &Case) -> Vec<Arg> {
+    let mut out = vec![];
+    for t in &c.tmpls {
+        collect_args(&t.layout, &mut out);
+        for b in t.blocks.values() {
+            collect_args(b, &mut out);
+        }
+    }
+    out
+}
+
+/// maps yield their keys in sorted order: the case line must list the candidates that way
+fn maps_canonical(pr: &Pr, args: &[Arg]) -> bool {
+    args.iter().filter(|a| a.kind == "map" || a.kind == "ctxmap").all(|a| {
+        let keys: Vec<String> = a
+            .cands
+            .iter()
+            .map(|c| match c {
+                Cand::T(t) => pr.rf(*t),
+                _ => String::new(),
+            })
+            .collect();
+        keys.iter().all(|k| !k.is_empty()) && keys.windows(2).all(|w| w[0] < w[1])
+    })
+}
+
+fn make_env(
+    cfg: Cfgv,
+    sources: &[(String, String, Option<char>)],
+    dyn_names: &[String],
+    pr: &Pr,
+    args: &[Arg],
+) -> Result<Environment<'static>, Error> {
     let mut env = Environment::new();
+    for a in args.iter().filter(|a| a.needs_global()) {
+        env.add_global(a.global(), arg_value(pr, a));
+    }
     if cfg.syntax {
         env.set_syntax(
             minijinja::syntax::SyntaxConfig::builder()
@@ -672,28 +931,42 @@ fn run_case(c: &Case, variant: usize) -> Outcome {
     let wname = if cfg.pathjoin { format!("d0/w.{wext}") } else { format!("w.{wext}") };
     sources.push((wname.clone(), wsrc, None));
     let skip = |res: String, detail: String| Outcome { res, detail, meta: "skip".into(), rblock: "skip".into(), fresh: "skip".into() };
+    let args = case_args(c);
+    if !maps_canonical(&pr, &args) {
+        return skip("syntax:map-candidates-not-in-iteration-order".into(), "syntax".into());
+    }
+    // a one-shot iterator in the environment is used up by a render: every entry point gets an
+    // environment of its own then
+    let has_once = args.iter().any(|a| a.kind == "once");
     let r = guarded(|| {
         let dyn_names: Vec<String> = (0..100).map(|i| pr.rf(i)).collect();
-        let env = match make_env(cfg, &sources, &dyn_names) {
+        let build = || make_env(cfg, &sources, &dyn_names, &pr, &args);
+        let mut env = match build() {
             Ok(env) => env,
             Err(e) => return skip(format!("syntax:{}", error_kind_name(&e)), "syntax".to_string()),
         };
         let main = pr.reg(0);
-        let t = match env.get_template(&main) {
-            Ok(t) => t,
-            Err(e) => {
-                // the main template itself cannot be loaded: every entry point reports that
-                let r = format!("err:{}", kind_chain(&e));
-                return Outcome { res: r.clone(), detail: "load-error".into(), meta: "skip".into(), rblock: r.clone(), fresh: r };
-            }
-        };
-        let (res, detail) = res_of(t.render(context(&pr)));
+        if let Err(e) = env.get_template(&main) {
+            // the main template itself cannot be loaded: every entry point reports that
+            let r = format!("err:{}", kind_chain(&e));
+            return Outcome { res: r.clone(), detail: "load-error".into(), meta: "skip".into(), rblock: r.clone(), fresh: r };
+        }
+        let (res, detail) = res_of(env.get_template(&main).unwrap().render(context(&pr)));
         let bname = format!("b{}", cfg.blk);
-        let rblock = match t.render_captured(context(&pr)) {
+        if has_once {
+            env = build().unwrap();
+        }
+        let rblock = match env.get_template(&main).unwrap().render_captured(context(&pr)) {
             Ok(mut captured) => res_of(captured.with_state_mut(|state| state.render_block(&bname))).0,
             Err(e) => format!("err:{}", kind_chain(&e)),
         };
-        let fresh = res_of(t.new_state().render_block(&bname)).0;
+        if has_once {
+            env = build().unwrap();
+        }
+        let fresh = res_of(env.get_template(&main).unwrap().new_state().render_block(&bname)).0;
+        if has_once {
+            env = build().unwrap();
+        }
         let meta = if detail == "recursion-limit" {
             // ten more units of depth in front of a run that hits the limit: not comparable
             "skip".to_string()
@@ -883,7 +1156,7 @@ fn aux_templates(len: usize) -> Vec<Tmpl> {
 }
 
 /// a snippet of items exercising include/import (index into a fixed menu)
-const N_SNIPPETS: usize = 38;
+const N_SNIPPETS: usize = 48;
 fn snippet(k: usize, len: usize) -> Vec<Item> {
     let a = |x: usize| len + x;
     let miss = len + AUX_N;
@@ -925,6 +1198,17 @@ fn snippet(k: usize, len: usize) -> Vec<Item> {
         35 => vec![FromImport(a(AUX_K), 2, 7)],
         36 => vec![Incl { names: vec![a(AUX_RT)], ign: true }],
         37 => vec![Incl { names: vec![miss, a(AUX_KC)], ign: true }],
+        // the argument is a value: lazily evaluated iterables, maps, objects
+        38 => vec![InclArg { arg: Arg::names("lazy", &[miss, a(AUX_X), a(AUX_P)]), ign: false }],
+        39 => vec![InclArg { arg: Arg::names("slice", &[miss, a(AUX_B)]), ign: false }],
+        40 => vec![InclArg { arg: Arg::names("rev", &[miss, miss + 1]), ign: true }],
+        41 => vec![InclArg { arg: Arg::names("rev", &[miss, miss + 1]), ign: false }],
+        42 => vec![ImportArg(Arg::names("lazy", &[miss, a(AUX_M)]), 8), EmitAttr(8, 2), EmitKeys(8)],
+        43 => vec![FromArg(Arg::names("ctx", &[miss, a(AUX_M)]), 3, 7), CallVar(7)],
+        44 => vec![InclArg { arg: Arg::names("map", &[a(AUX_Q)]), ign: false }],
+        45 => vec![InclArg { arg: Arg::new("plain", vec![]), ign: true }],
+        46 => vec![InclArg { arg: Arg::new("pobj", vec![Cand::T(miss), Cand::Int, Cand::T(a(AUX_X))]), ign: true }],
+        47 => vec![InclArg { arg: Arg::names("rep", &[miss]), ign: true }],
         _ => vec![Incl { names: vec![a(AUX_Q)], ign: false }, Incl { names: vec![a(AUX_X)], ign: false }],
     }
 }
@@ -1063,6 +1347,13 @@ fn refs(items: &[Item], out: &mut Vec<usize>) {
             Extends { t, .. } => out.push(*t),
             Incl { names, .. } => out.extend(names.iter().copied()),
             ImportAs(t, _) | FromImport(t, _, _) => out.push(*t),
+            InclArg { arg, .. } | ImportArg(arg, _) | FromArg(arg, _, _) => {
+                for c in &arg.cands {
+                    if let Cand::T(t) = c {
+                        out.push(*t);
+                    }
+                }
+            }
             Loop(_, _, b) | InMacro(_, _, _, b) | AutoEsc(_, b) => refs(b, out),
             _ => {}
         }
@@ -1690,6 +1981,334 @@ fn closure_families(out: &mut Vec<Case>, thorough: bool) {
     }
 }
 
+/// The include / import / from-import ARGUMENT as an axis: every kind of value that can carry
+/// the candidates × which candidate exists (first / a later one / none / empty / non-string
+/// entries in front of or behind an existing name) × ignore missing × the three statements ×
+/// placement (top level, loop, macro call, autoescape block, block).  t1 and t2 exist (small
+/// modules that also print the includer's variables), t50 / t51 are missing.
+fn arg_families(out: &mut Vec<Case>) {
+    let t = |n: usize| Cand::T(n);
+    let name_pats: Vec<Vec<Cand>> = vec![
+        vec![t(1), t(50), t(2)],
+        vec![t(50), t(51), t(2), t(1)],
+        vec![t(50), t(51)],
+        vec![t(1)],
+        vec![t(50)],
+        vec![],
+    ];
+    let mixed_pats: Vec<Vec<Cand>> = vec![
+        vec![t(50), Cand::Int, t(1)],
+        vec![t(1), Cand::Int],
+        vec![Cand::Undef, t(1)],
+        vec![t(50), Cand::NoneV],
+    ];
+    let mut args: Vec<Arg> = vec![];
+    for kind in ["lit", "tup", "ctx", "slice", "rev", "lazy", "once", "rep", "pobj"] {
+        for p in name_pats.iter().chain(mixed_pats.iter()) {
+            args.push(Arg::new(kind, p.clone()));
+        }
+    }
+    for kind in ["map", "ctxmap"] {
+        for p in &name_pats {
+            args.push(Arg::new(kind, p.clone()));
+        }
+    }
+    args.push(Arg::new("str", vec![t(1)]));
+    args.push(Arg::new("str", vec![t(50)]));
+    for c in [Cand::Int, Cand::NoneV, Cand::Undef, Cand::Bool] {
+        args.push(Arg::new("sc", vec![c]));
+    }
+    args.push(Arg::new("plain", vec![]));
+    let module = |k: usize, ext: &str| Tmpl {
+        layout: vec![
+            Text(format!("<{k}:")),
+            EmitVar(0),
+            Text(":".into()),
+            EmitVar(1),
+            Text(">".into()),
+            SetVar(2, format!("m{k}<&")),
+            DefMacro(3, format!("<mac{k}>")),
+        ],
+        blocks: BTreeMap::new(),
+        ext: ext.into(),
+    };
+    for arg in &args {
+        for stmt in 0..5usize {
+            let items: Vec<Item> = match stmt {
+                0 => vec![InclArg { arg: arg.clone(), ign: false }],
+                1 => vec![InclArg { arg: arg.clone(), ign: true }],
+                2 => vec![ImportArg(arg.clone(), 8), Text("[".into()), EmitAttr(8, 2), Text("]".into()), EmitKeys(8)],
+                3 => vec![FromArg(arg.clone(), 3, 7), CallVar(7)],
+                _ => vec![FromArg(arg.clone(), 2, 7), Text("[".into()), EmitVar(7), Text("]".into())],
+            };
+            for place in 0..5usize {
+                // a one-shot iterator is consumed by its first use: only where the tag runs once
+                if arg.kind == "once" && place == 4 {
+                    continue;
+                }
+                let mut t0 = Tmpl::default();
+                t0.layout.push(tx("a".into()));
+                t0.layout.push(SetVar(1, "L<1".into()));
+                match place {
+                    0 => t0.layout.extend(items.clone()),
+                    1 => {
+                        let vals: Vec<String> =
+                            if arg.kind == "once" { vec!["i<1".into()] } else { vec!["i<1".into(), "i&2".into()] };
+                        t0.layout.push(Loop(1, vals, items.clone()));
+                    }
+                    2 => t0.layout.extend(wrap(2, items.clone())),
+                    3 => t0.layout.extend(wrap(3, items.clone())),
+                    _ => {
+                        t0.layout.push(CallBlock(0));
+                        let mut b = vec![tx("b0".into())];
+                        b.extend(items.clone());
+                        t0.blocks.insert(0, b);
+                    }
+                }
+                t0.layout.push(tx("z".into()));
+                out.push(Case { fam: "incl-arg".into(), tmpls: vec![t0, module(1, "html"), module(2, "txt")] });
+            }
+        }
+    }
+}
+
+/// Which variables an include / import sees and changes: the includer sets v1 (and v3) before the
+/// tag — at top level, as a loop variable, in a block frame, as a macro argument —, the used
+/// template prints v1 / v2 / v0 and assigns v6 and v3; afterwards (and after the enclosing loop /
+/// block) the includer prints v3, v6, v1 and what it got from the import.
+fn visibility_families(out: &mut Vec<Case>) {
+    for stmt in 0..5usize {
+        for place in 0..6usize {
+            for early in [false, true] {
+                let used: Vec<Item> = match stmt {
+                    0 => vec![Incl { names: vec![1], ign: false }],
+                    1 => vec![InclArg { arg: Arg::names("lazy", &[50, 1]), ign: false }],
+                    2 => vec![ImportAs(1, 8), Text("[".into()), EmitAttr(8, 3), Text(",".into()), EmitAttr(8, 1), Text("]".into()), EmitKeys(8)],
+                    3 => vec![FromImport(1, 3, 7), Text("[".into()), EmitVar(7), Text("]".into())],
+                    _ => vec![FromArg(Arg::names("slice", &[50, 1]), 1, 7), Text("[".into()), EmitVar(7), Text("]".into())],
+                };
+                let mut inner = vec![];
+                if early {
+                    inner.push(SetVar(1, "e<1".into()));
+                }
+                inner.push(SetVar(3, "mine".into()));
+                inner.extend(used);
+                inner.push(SetVar(2, "late".into()));
+                inner.push(Text("(".into()));
+                inner.push(EmitVar(3));
+                inner.push(Text(",".into()));
+                inner.push(EmitVar(6));
+                inner.push(Text(",".into()));
+                inner.push(EmitVar(1));
+                inner.push(Text(")".into()));
+                let mut t0 = Tmpl { ext: "txt".into(), ..Tmpl::default() };
+                t0.layout.push(tx("a".into()));
+                match place {
+                    0 => t0.layout.extend(inner),
+                    1 => t0.layout.extend(wrap(1, inner)),
+                    2 => t0.layout.extend(wrap(2, inner)),
+                    3 => t0.layout.extend(wrap(3, inner)),
+                    4 => {
+                        t0.layout.push(CallBlock(0));
+                        t0.blocks.insert(0, inner);
+                    }
+                    _ => {
+                        t0.layout.push(CallBlock(0));
+                        t0.blocks.insert(0, wrap(1, inner));
+                    }
+                }
+                // what is left after the loop / block / macro call
+                t0.layout.push(Text("<<".into()));
+                t0.layout.push(EmitVar(3));
+                t0.layout.push(Text(",".into()));
+                t0.layout.push(EmitVar(6));
+                t0.layout.push(Text(",".into()));
+                t0.layout.push(EmitVar(1));
+                t0.layout.push(Text(">>".into()));
+                let t1 = Tmpl {
+                    ext: "html".into(),
+                    layout: vec![
+                        Text("<".into()),
+                        EmitVar(1),
+                        Text("|".into()),
+                        EmitVar(2),
+                        Text("|".into()),
+                        EmitVar(0),
+                        Text("|".into()),
+                        EmitVar(3),
+                        Text(">".into()),
+                        SetVar(6, "six&".into()),
+                        SetVar(3, "theirs".into()),
+                    ],
+                    blocks: BTreeMap::new(),
+                };
+                out.push(Case { fam: "visibility".into(), tmpls: vec![t0, t1] });
+            }
+        }
+    }
+}
+
+/// `super()` outside of blocks in an *included* chain.  The engine hands the name of the block
+/// the include tag stands in (`state.current_block`) into the included template, so a top-level
+/// `super()` there looks that name up among the included chain's own definitions: an error
+/// ("no parent block exists") unless the included chain defines the name at least twice — then
+/// the second definition is rendered (family `super-inherited`, recorded finding).  Also block
+/// references from inside macro bodies (a macro call keeps the block table and its cursors).
+fn super_included_families(out: &mut Vec<Case>) {
+    // t0: block b<inc> contains the include; t1 is included and (variants) extends t2
+    for inc_block in [0usize, 1] {
+        for variant in 0..8usize {
+            for t1_defines in [false, true] {
+                let mut t0 = Tmpl::default();
+                t0.layout = vec![tx("T0".into()), CallBlock(inc_block)];
+                t0.blocks.insert(inc_block, vec![tx(format!("T0:b{inc_block}")), Incl { names: vec![1], ign: false }, tx("T0:z".into())]);
+                let mut t1 = Tmpl::default();
+                let sup: Vec<Item> = match variant % 4 {
+                    0 => vec![Super],
+                    1 => vec![SetSuper(5)],
+                    2 => wrap(1, vec![Super]),
+                    _ => wrap(3, vec![SetSuper(5)]),
+                };
+                let extends = variant < 6;
+                let before = variant >= 4;
+                t1.layout.push(tx("T1:a".into()));
+                if before {
+                    t1.layout.extend(sup.clone());
+                }
+                if extends {
+                    t1.layout.push(ext('s', 2));
+                }
+                if !before {
+                    t1.layout.extend(sup.clone());
+                }
+                if t1_defines {
+                    t1.layout.push(CallBlock(0));
+                    // only the captured variants assign v5 (an undefined v5 is an error of its own
+                    // under the strict undefined behaviours)
+                    let mut b = vec![tx("T1:b0".into())];
+                    if variant % 2 == 1 {
+                        b.extend([Text("(".into()), EmitVar(5), Text(")".into())]);
+                    }
+                    t1.blocks.insert(0, b);
+                }
+                let mut t2 = Tmpl::default();
+                t2.layout = vec![tx("T2".into()), CallBlock(0), tx("T2:z".into())];
+                t2.blocks.insert(0, vec![tx("T2:b0".into())]);
+                // the quirk needs: the include stands in b0, the included chain defines b0 twice
+                // and the super() runs after the extends tag
+                let quirk = inc_block == 0 && t1_defines && extends && !before;
+                out.push(Case { fam: if quirk { "super-inherited".into() } else { "super-included".into() }, tmpls: vec![t0, t1, t2] });
+            }
+        }
+    }
+    // block references and super() inside macro bodies, at top level and inside blocks
+    for place in 0..3usize {
+        for body in [
+            vec![SelfCall(1)],
+            vec![SetSelf(5, 1), Text("(".into()), EmitVar(5), Text(")".into())],
+            vec![Super],
+            vec![SelfCall(2)],
+            vec![Incl { names: vec![2], ign: false }],
+        ] {
+            let mut t0 = Tmpl::default();
+            t0.layout.push(tx("T0".into()));
+            let mac = wrap(2, body.clone());
+            match place {
+                0 => t0.layout.extend(mac),
+                1 => {
+                    t0.layout.push(CallBlock(0));
+                    let mut b = vec![tx("T0:b0".into())];
+                    b.extend(mac);
+                    t0.blocks.insert(0, b);
+                }
+                _ => {
+                    t0.layout.insert(0, ext('s', 1));
+                    t0.layout.push(CallBlock(0));
+                    let mut b = vec![tx("T0:b0".into()), Super];
+                    b.extend(mac);
+                    t0.blocks.insert(0, b);
+                }
+            }
+            t0.layout.push(CallBlock(1));
+            t0.blocks.insert(1, vec![tx("T0:b1".into()), EmitVar(1)]);
+            let mut t1 = Tmpl::default();
+            t1.layout = vec![tx("T1".into()), CallBlock(0), CallBlock(1)];
+            t1.blocks.insert(0, vec![tx("T1:b0".into())]);
+            t1.blocks.insert(1, vec![tx("T1:b1".into())]);
+            let t2 = simple(vec![tx("T2".into()), Super], vec![]);
+            out.push(Case { fam: "macro-blocks".into(), tmpls: vec![t0, t1, t2] });
+        }
+    }
+}
+
+/// `{% autoescape %}` blocks nested directly in one another (2 and 3 deep, every combination of
+/// modes), around variables, includes, imports, captured super() and block calls; the mode is
+/// back to the enclosing block's after each `endautoescape`
+fn nested_autoescape_families(out: &mut Vec<Case>) {
+    let modes = ["html", "json", "none"];
+    for a in modes {
+        for b in modes {
+            for c in ["", "html", "json", "none"] {
+                for content in 0..5usize {
+                    let inner: Vec<Item> = match content {
+                        0 => vec![EmitVar(0)],
+                        1 => vec![Incl { names: vec![1], ign: false }, EmitVar(0)],
+                        2 => vec![ImportAs(1, 8), EmitAttr(8, 2), EmitVar(0)],
+                        3 => vec![SetSelf(5, 1), EmitVar(5), EmitVar(0)],
+                        _ => vec![InclArg { arg: Arg::names("lazy", &[50, 1]), ign: false }, SetVar(4, "s<4".into()), EmitVar(4)],
+                    };
+                    let mut l3 = inner.clone();
+                    if !c.is_empty() {
+                        l3 = vec![AutoEsc(c.into(), inner.clone()), EmitVar(0)];
+                    }
+                    let mut l2 = vec![EmitVar(0), AutoEsc(b.into(), l3), EmitVar(0)];
+                    if content == 3 {
+                        l2.push(Super);
+                    }
+                    let l1 = vec![Text("<1:".into()), AutoEsc(a.into(), l2), Text(":".into()), EmitVar(0), Text(">".into())];
+                    let mut t0 = Tmpl { ext: "txt".into(), ..Tmpl::default() };
+                    if content == 3 {
+                        t0.layout = vec![ext('s', 2), CallBlock(0), CallBlock(1)];
+                        t0.blocks.insert(0, l1);
+                        t0.blocks.insert(1, vec![Text("<b1:".into()), EmitVar(0), Text(">".into())]);
+                    } else {
+                        t0.layout = l1;
+                    }
+                    let t1 = Tmpl {
+                        ext: "html".into(),
+                        layout: vec![Text("<inc:".into()), EmitVar(0), Text(">".into()), SetVar(2, "m<&".into())],
+                        blocks: BTreeMap::new(),
+                    };
+                    let mut t2 = Tmpl { ext: "json".into(), ..Tmpl::default() };
+                    t2.layout = vec![Text("<p>".into()), CallBlock(0)];
+                    t2.blocks.insert(0, vec![Text("<p0:".into()), EmitVar(0), Text(">".into())]);
+                    out.push(Case { fam: "ae-nested".into(), tmpls: vec![t0, t1, t2] });
+                }
+            }
+        }
+    }
+}
+
+/// maps yield their keys in sorted order: put the candidates of map arguments into the order in
+/// which the engine will iterate them (depends on the names the configuration gives the templates)
+fn canon_maps(pr: &Pr, items: &mut [Item]) {
+    for it in items.iter_mut() {
+        match it {
+            InclArg { arg, .. } | ImportArg(arg, _) | FromArg(arg, _, _) => {
+                if arg.kind == "map" || arg.kind == "ctxmap" {
+                    arg.cands.sort_by_key(|c| match c {
+                        Cand::T(t) => pr.rf(*t),
+                        _ => String::new(),
+                    });
+                    arg.cands.dedup();
+                }
+            }
+            Loop(_, _, b) | InMacro(_, _, _, b) | AutoEsc(_, b) => canon_maps(pr, b),
+            _ => {}
+        }
+    }
+}
+
 fn cases(tier: &str) -> Vec<Case> {
     let thorough = tier == "thorough";
     let mut rng = Rng::new(seed_from_env());
@@ -1698,6 +2317,10 @@ fn cases(tier: &str) -> Vec<Case> {
     mode_families(&mut out);
     load_error_families(&mut out);
     closure_families(&mut out, thorough);
+    arg_families(&mut out);
+    visibility_families(&mut out);
+    super_included_families(&mut out);
+    nested_autoescape_families(&mut out);
     error_families(&mut out);
     all_small(&mut out, thorough);
     let n_plain = if thorough { 50_000 } else { 2_500 };
@@ -1726,6 +2349,14 @@ fn cases(tier: &str) -> Vec<Case> {
         // templates that cannot be loaded only exist behind a loader
         let l = if c.tmpls.iter().any(|t| t.ext.contains('!')) { 1 } else { l };
         c.fam = format!("{}~{l}{sy}{p}{u}{b}", c.fam);
+        let exts: Vec<String> = c.tmpls.iter().map(|t| t.ext.clone()).collect();
+        let pr = Pr { exts: exts.iter().map(|e| e.as_str()).collect(), cfg: cfg_of(&c.fam) };
+        for t in c.tmpls.iter_mut() {
+            canon_maps(&pr, &mut t.layout);
+            for b in t.blocks.values_mut() {
+                canon_maps(&pr, b);
+            }
+        }
     }
     out
 }
